@@ -9,6 +9,10 @@ FLOAT_ALLOWED = [
     "Prim2SF_SF2Prim", "ClassicalDedekindReals.sig_not_dec", "ClassicalDedekindReals.sig_forall_dec",
     "FunctionalExtensionality.functional_extensionality_dep", "Classical_Prop.classic",
 ]
+# the kernel's primitive declarations only (no specification axiom): what a theorem lists as soon as it MENTIONS an interpreter whose
+# value type has a float constructor, even when no float is ever computed
+FLOAT_PRIMITIVES = ["float", "int", "add", "sub", "mul", "div", "abs", "opp", "ltb", "leb", "eqb", "of_uint63", "normfr_mantissa",
+                    "ldshiftexp", "frshiftexp"]
 FLOAT_PATTERNS = [r"PrimInt63\.[A-Za-z0-9_]+", r"PrimFloat\.[A-Za-z0-9_]+", r"Uint63\.[A-Za-z0-9_]+"]
 
 
